@@ -324,7 +324,17 @@ func (a *c16StatusAn) run(f *flow.Func, targets map[types.Object]bool, entry c16
 		isTarget = func(x ast.Expr) bool {
 			// x is <conn>.statusFlag or <conn>
 			if sel, ok := ast.Unparen(x).(*ast.SelectorExpr); ok && c16Sel(f, sel, a.statusF) {
-				return newConn(sel.X)
+				// the status word may sit in a sub-struct of Client
+				for cur := ast.Unparen(sel.X); ; {
+					if newConn(cur) {
+						return true
+					}
+					inner, ok := cur.(*ast.SelectorExpr)
+					if !ok {
+						return false
+					}
+					cur = ast.Unparen(inner.X)
+				}
 			}
 			return newConn(x)
 		}
